@@ -127,6 +127,8 @@ fn exercise(
     };
     match name {
         "point" => {
+            // an earlier run may have cleaned the directory away
+            if let Some(d) = f.point_path.parent() { let _ = fs::create_dir_all(d); }
             fs::write(&f.point_path, bytes).map_err(|e| ("harness".to_string(), e.to_string()))?;
             alloc::reset();
             let r = util::catch(|| {
@@ -152,6 +154,7 @@ fn exercise(
             }
         }
         "status" => {
+            if let Some(d) = f.status_path.parent() { let _ = fs::create_dir_all(d); }
             fs::write(&f.status_path, bytes).map_err(|e| ("harness".to_string(), e.to_string()))?;
             alloc::reset();
             let config = Case { dir: f.dir.clone() }.config();
@@ -212,6 +215,10 @@ fn exercise(
                 check_alloc("the RRDP update")?;
                 match r {
                     Ok(o) => outcome.push_str(&format!(":update={}", o.result)),
+                    // Damage in a part of the archive the update did not
+                    // touch surfaces as a reported error whenever that part
+                    // is read (and the archive is then discarded): allowed.
+                    Err((class, _)) if class == "local-copy-unreadable" || class == "object-unreadable" => outcome.push_str(":update=updated-but-damage-remains"),
                     Err((class, msg)) => return Err((format!("update-{class}"), msg)),
                 }
             }
@@ -302,7 +309,7 @@ pub fn run(ctx: &Ctx) -> Report {
         per position, and a few whole-file replacements; each variant is \
         read through StoredPoint::load_quietly + iteration, Store::status, \
         RrdpArchive::verify / open / load_state / objects / load_object, \
-        and (every variant in thorough, every 8th in quick) a full offline \
+        and (every variant in thorough, every 4th in quick) a full offline \
         validation run resp. a real RRDP update over it; worker processes \
         with an 8 GiB address-space cap, per-thread largest-allocation \
         tracking and a hang horizon; oracle: no panic, no abort, no hang, \
@@ -311,7 +318,7 @@ pub fn run(ctx: &Ctx) -> Report {
         content; non-trivial = variants that the reader did not reject \
         outright".into();
     let exe = std::env::current_exe().unwrap();
-    let full_every = if thorough { 1 } else { 8 };
+    let full_every = if thorough { 1 } else { 4 };
     let workers_per = 5;
     let mut total = 0usize;
     for name in ARTEFACTS {
@@ -361,6 +368,7 @@ pub fn run(ctx: &Ctx) -> Report {
                             }
                             for x in v["violations"].as_array().cloned().unwrap_or_default() {
                                 let class = x["class"].as_str().unwrap_or("").to_string();
+                                let class = format!("{class}{}", region(name, &base, x["index"].as_u64().unwrap_or(0) as usize, thorough));
                                 rep.violation(format!("corrupt:{name}:{class}"), x["what"].as_str().unwrap_or("").to_string(),
                                     json!({"artefact": name, "index": x["index"], "thorough": thorough}));
                             }
@@ -405,6 +413,21 @@ pub fn run(ctx: &Ctx) -> Report {
     rep.sample(json!({"artefact": "point", "index": 7, "meaning": "stored point truncated to 7 bytes"}));
     rep.assumptions.push("single-deviation corruption (one truncation or one substituted byte) plus a few whole-file replacements; allocation tracking is per thread of the harness (worker threads of the validation run included via their own high-water marks only when they run on the calling thread)".into());
     rep
+}
+
+/// The part of the file a substitution variant touches (archives only):
+/// part of the finding's identity.
+fn region(name: &str, base: &[u8], idx: usize, thorough: bool) -> String {
+    if name != "archive" || idx < base.len() { return String::new() }
+    let mut k = idx - base.len();
+    for pos in 0..base.len() {
+        let n = subst_values(thorough, base[pos]).len();
+        if k < n {
+            return if pos < 30 { ":header".into() } else if pos < 30 + 1025 * 8 { ":bucket-index".into() } else { ":objects".into() }
+        }
+        k -= n;
+    }
+    String::new()
 }
 
 fn shorten(k: &str) -> String {
